@@ -48,6 +48,7 @@ pub fn configs(tier: Tier) -> Vec<Box<dyn Config>> {
         v.push(pairs(Plan::Cluster(2), if q { 4 } else { 6 }, Plan::Cluster(2), if q { 4 } else { 6 }, false, tier));
         v.push(pairs(Plan::Seq, if q { 4 } else { 5 }, Plan::Max, if q { 4 } else { 5 }, true, tier));
     }
+    v.push(Box::new(NonReflexiveEq));
     // clones of tables of zero-sized elements create exactly one new element per stored element
     v.push(Box::new(super::c02::ZstTables { tier }));
     // HashSet::clone / clone_from / == over all ordered pairs of set states, equal and different hasher states
@@ -57,4 +58,77 @@ pub fn configs(tier: Tier) -> Vec<Box<dyn Config>> {
         v.push(super::c07::pairs(Plan::Seq, if q { 3 } else { 5 }, Plan::Max, if q { 3 } else { 5 }, true, tier));
     }
     v
+}
+
+// ---------------------------------------------------------------------------
+// == with values whose equality is not reflexive (PartialEq only is required of V): a map that holds a
+// NaN is not equal to anything, including itself and its clones; == must not depend on object identity.
+// ---------------------------------------------------------------------------
+
+use crate::env::{self, CheckAlloc};
+use crate::report::{ConfigReport, Viol};
+use serde_json::{json, Value};
+
+pub struct NonReflexiveEq;
+
+fn nonreflexive_all() -> Result<u64, String> {
+    type M = hashbrown::HashMap<u8, f64, PlanBuild, CheckAlloc>;
+    let mut count = 0;
+    env::set_plan(&Plan::Zero.table());
+    for n in 0..=4usize {
+        for nan_mask in 0..(1u32 << n) {
+            for other_mask in 0..(1u32 << n) {
+                let build = |mask: u32, extra_cap: usize| {
+                    let mut m = M::with_capacity_and_hasher_in(extra_cap, PlanBuild::default(), CheckAlloc);
+                    for i in 0..n {
+                        m.insert(i as u8, if mask >> i & 1 == 1 { f64::NAN } else { i as f64 });
+                    }
+                    m
+                };
+                let a = build(nan_mask, 0);
+                let b = build(other_mask, 40);
+                // mathematical answer: same keys (always, here) and every pair of values equal under PartialEq
+                let want_ab = (0..n).all(|i| nan_mask >> i & 1 == 0 && other_mask >> i & 1 == 0);
+                let want_aa = nan_mask == 0;
+                let c = a.clone();
+                let checks = [("a == b", a == b, want_ab), ("b == a", b == a, want_ab), ("a == a", a == a, want_aa), ("a == a.clone()", a == c, want_aa), ("a.clone() == a", c == a, want_aa), ("a != a", a != a, !want_aa)];
+                for (what, got, want) in checks {
+                    if got != want {
+                        return Err(format!("{what}: {n} entries, NaN values at {nan_mask:#b} (a) / {other_mask:#b} (b): returned {got}, mathematical answer {want}"));
+                    }
+                    count += 1;
+                }
+            }
+        }
+    }
+    Ok(count)
+}
+
+impl Config for NonReflexiveEq {
+    fn label(&self) -> String {
+        "eq-with-non-reflexive-values".into()
+    }
+    fn run(&self) -> ConfigReport {
+        crate::crumbs::set_config(&self.label());
+        let t0 = std::time::Instant::now();
+        env::reset();
+        let mut rep = ConfigReport { label: self.label(), mode: "enum".into(), exhaustive: true, ..Default::default() };
+        match env::catch(nonreflexive_all) {
+            Ok(Ok(n)) => {
+                rep.executions = n;
+                rep.states = 5;
+                rep.detail = json!({"entries": "0..=4", "NaN placements": "all subsets, both operands", "comparisons": n, "distinct_nontrivial": n});
+            }
+            Ok(Err(m)) | Err(m) => rep.violations.push(Viol { config: self.label(), message: m, replay: json!({"nonreflexive": true}) }),
+        }
+        rep.wall_s = t0.elapsed().as_secs_f64();
+        rep
+    }
+    fn replay(&self, _rp: &Value) -> Result<(), String> {
+        env::reset();
+        match env::catch(nonreflexive_all) {
+            Ok(r) => r.map(|_| ()),
+            Err(m) => Err(m),
+        }
+    }
 }
